@@ -12,7 +12,7 @@ import vtlib
 from checks import tracecheck
 
 META = dict(
-    text='TLC exhausts the mutex acquisition / hand-off protocol over the scheduler core (MutexCore: 2 vCPUs, 3 threads, deadlines 0/now+1/inf, external interrupter, idler expiry, standby queue; explicit spinlock steps; context save as its own step) for mutual exclusion, result-matches-ownership, failed-lock-not-queued, not-stuck and hand-off invariants, and the three spinlocks at atomic-operation granularity (SpinLocks: 3 OS threads x 2 rounds, mutual exclusion + termination under fairness). Recorded executions of the real primitives (random programs of lock / timed lock / try_lock / unlock with thread_interrupt() from photon and OS threads, 1-3 vCPUs; plain, retries-0, contending and recursive mutex; spinlock, ticket_spinlock, qspinlock with OS-thread clients) are validated by TLC against the abstract lock (linearizability with silent take-effect steps): lock()==0 iff the caller became owner, failed lock() is a no-op and only fails by timeout/interruption, the guarded region is never shared, nothing is left locked or blocked at quiescence. Tier B: the events emitted by guarded hooks inside the library at the end of each critical section (owner-word CAS and store inside atomic brackets, enqueue, interrupt / expiry claims, wake-up reasons) of further executions are validated against the critical-section protocol (Trace_MutexB.tla): hand-off only to the head of the queue and only by the owner with the internal spinlock held, a sleeper is claimed exactly once, the wake-up reason is the claim\'s reason, lock()==0 iff the owner word holds the caller.',
+    text='TLC exhausts the mutex acquisition / hand-off protocol over the scheduler core (MutexCore: 2 vCPUs, 3 threads, deadlines 0/now+1/inf, external interrupter, idler expiry, standby queue; explicit spinlock steps; context save as its own step) for mutual exclusion, result-matches-ownership, failed-lock-not-queued, not-stuck and hand-off invariants, and the three spinlocks at atomic-operation granularity (SpinLocks: 3 OS threads x 2 rounds, mutual exclusion + termination under fairness). Recorded executions of the real primitives (random programs of lock / timed lock / try_lock / unlock with thread_interrupt() from photon and OS threads, 1-3 vCPUs; plain, retries-0, contending and recursive mutex; spinlock, ticket_spinlock, qspinlock with OS-thread clients) are validated by TLC against the abstract lock (linearizability with silent take-effect steps): lock()==0 iff the caller became owner, failed lock() is a no-op and only fails by timeout/interruption, the guarded region is never shared, nothing is left locked or blocked at quiescence. Tier B: the events emitted by guarded hooks inside the library at the end of each critical section (owner-word CAS and store inside atomic brackets, enqueue, interrupt / expiry claims, wake-up reasons) of further executions are validated against the critical-section protocol (Trace_MutexB.tla): hand-off only to the head of the queue and only by the owner with the internal spinlock held, a sleeper is claimed exactly once, the wake-up reason is the claim\'s reason, lock()==0 iff the owner word holds the caller. Further executions (modes +p) hold every thread for 20-80 us at the end of half of the atomic brackets (right after a lock word changed) and use spinning try_lock acquirers, so that anything the releaser still does after the release meets the next owner.',
     note='Sequential consistency is assumed in the specifications (weak-memory reorderings of the spinlocks are not decided). TLC results hold for the stated small populations; conformance runs sample schedules (seeded programs, OS scheduling on 1-3 vCPUs) and check every recorded step against the specification. A thread still blocked 10 s after all programs ended is reported as a stuck mutex.',
     technique='TLA+ model of scheduler core + mutex protocol checked exhaustively by TLC; TLC trace validation (linearizability against abstract lock) of executions recorded from the real primitives',
     design='3/C01')
